@@ -314,6 +314,95 @@ class p2p_rechunk_transfer:
                         yield {"cls": cls, "old": a, "new": b}
 
 
+@contract("dask_array/creation/_diag.py::diag", spec="unknown-2d", props=["C28"])
+class unknown_2d_ops:
+    """2-D arrays whose both axes have unknown sizes (row mask, then column mask): an operation computes NumPy's result or
+    refuses"""
+    bounded_only = True
+    params = {"chunks": "const", "rows": "const", "cols": "const", "op": "const"}
+    scope = "6x6 data, 3 layouts, 3 row masks x 3 column masks; diag, diagonal, trace, transpose, sums, matmul with itself"
+
+    def real():
+        return lambda: None
+
+    def call(fn, chunks, rows, cols, op):
+        import numpy as np
+        import dask_array as da
+        a = np.arange(36.0).reshape(6, 6)
+        mr, mc = np.array(rows, bool), np.array(cols, bool)
+        x = da.from_array(a, chunks=chunks)
+        v = x[da.from_array(mr, chunks=chunks[0])][:, da.from_array(mc, chunks=chunks[1])]
+        w = a[mr][:, mc]
+        ops = {"diag": (lambda t: da.diag(t), lambda t: np.diag(t)),
+               "diagonal": (lambda t: da.diagonal(t), lambda t: np.diagonal(t)),
+               "trace": (lambda t: da.trace(t), lambda t: np.trace(t)),
+               "T": (lambda t: t.T, lambda t: t.T),
+               "sum0": (lambda t: t.sum(axis=0), lambda t: t.sum(axis=0)),
+               "sum": (lambda t: t.sum(), lambda t: t.sum()),
+               "tril": (lambda t: da.tril(t), lambda t: np.tril(t)),
+               "matmul-T": (lambda t: t @ t.T, lambda t: t @ t.T)}
+        f, g = ops[op]
+        try:
+            got = np.asarray(f(v).compute())
+        except (ValueError, NotImplementedError, IndexError) as e:
+            return ("refused", None, None)
+        return ("computed", got, np.asarray(g(w)))
+
+    def requires(chunks, rows, cols, op):
+        return True
+
+    def ensures(result, chunks, rows, cols, op):
+        kind, got, want = result
+        return {"numpy-result-or-refusal": kind == "refused" or _same(got, want)}
+
+    def domain(tier, rng):
+        masks = [(1, 0, 0, 1, 1, 1), (1, 1, 1, 1, 0, 0), (0, 1, 0, 1, 0, 1)]
+        for chunks in (((3, 3), (3, 3)), ((2, 4), (4, 2)), ((6,), (3, 3))):
+            for r in masks:
+                for c in masks:
+                    for op in ("diag", "diagonal", "trace", "T", "sum0", "sum", "tril", "matmul-T"):
+                        yield {"chunks": chunks, "rows": r, "cols": c, "op": op}
+
+
+@contract("dask_array/manipulation/_squeeze.py::squeeze", spec="unknown-axis", props=["C28"])
+class squeeze_unknown_axis:
+    """squeeze() without an axis on an array with an unknown-length axis gives NumPy's shape or refuses (known finding F45:
+    an unknown axis whose true length is 1 is kept, so the result has one axis more than NumPy's)"""
+    bounded_only = True
+    params = {"n": "const", "chunks": "const", "keep": "const"}
+    scope = "boolean-mask selections of 1-D arrays keeping 1 or 2 elements; 2-D (unknown, 1) inputs"
+
+    def call(fn, n, chunks, keep):
+        import numpy as np
+        import dask_array as da
+        d = np.arange(n) * 3 % 7
+        x = da.from_array(d, chunks=(chunks,))
+        thr = sorted(d)[-keep]
+        try:
+            got = np.asarray(fn(x[x >= thr]).compute())
+        except ValueError as e:
+            return ("refused", None, None)
+        return ("computed", got, np.squeeze(d[d >= thr]))
+
+    def requires(n, chunks, keep):
+        return True
+
+    def ensures(result, n, chunks, keep):
+        kind, got, want = result
+        return {"numpy-shape-or-refusal": kind == "refused" or (np_shape(got) == np_shape(want) and _same(got, want))}
+
+    def domain(tier, rng):
+        for n in (5, 7):
+            for ch in cat.layouts_1d(n, "quick"):
+                for keep in (1, 2):
+                    yield {"n": n, "chunks": ch, "keep": keep}
+
+
+def np_shape(a):
+    import numpy as np
+    return tuple(np.shape(a))
+
+
 # ---------------------------------------------------------------------------
 def _numeric_known(x):
     return not any(isinstance(c, float) and math.isnan(c) for ax in x.chunks for c in ax)
@@ -804,7 +893,20 @@ class unknown_sizes_refused:
             "dot-self": (lambda a: da.dot(a, a), lambda w: np.dot(w, w)),
             "average": (lambda a: da.average(a), lambda w: np.average(w)),
             "where": (lambda a: da.where(a > 4, a, -a), lambda w: np.where(w > 4, w, -w)),
+            # an unknown-size operand next to known-size ones
+            "concat-known-first": (lambda a: da.concatenate([x, a]), lambda w: np.concatenate([d, w])),
+            "concat-known-last": (lambda a: da.concatenate([a, x, a]), lambda w: np.concatenate([w, d, w])),
+            "append-known": (lambda a: da.append(a, [7, 7]), lambda w: np.append(w, [7, 7])),
+            "hstack-known": (lambda a: da.hstack([x, a]), lambda w: np.hstack([d, w])),
+            # routines whose block offsets / shapes come from the (unknown) chunk sizes
+            "searchsorted-unknown-a": (lambda a: da.searchsorted(_sorted_sel(), da.from_array(np.array([0, 3, 5, 9]), chunks=2)),
+                                       lambda w: np.searchsorted(np.sort(d)[np.sort(d) > 2], np.array([0, 3, 5, 9]))),
+            "numpy-mask-one-too-long": (lambda a: a[np.array([True] * (len(want) + 1))], lambda w: w[np.array([True] * (len(w) + 1))]),
+            "int-index-2d": (lambda a: a[[[0, 1], [0, 0]]], lambda w: w[[[0, 1], [0, 0]]]),
         }
+        def _sorted_sel():
+            xs = da.from_array(np.sort(d), chunks=(chunks,))
+            return xs[xs > 2]
         f, g = ops[op]
         import warnings
         try:
@@ -843,7 +945,9 @@ class unknown_sizes_refused:
                     yield {"n": n, "chunks": ch, "op": op}
                 if n >= 5 and len(ch) >= 2:
                     for op in ("cov-with-index", "corrcoef-with-square", "mean", "var", "std(ddof=1)", "cumsum", "concat-self",
-                               "apply_along_axis(sum)", "max", "argmax", "diff", "reshape(-1,1)", "dot-self", "average", "where"):
+                               "apply_along_axis(sum)", "max", "argmax", "diff", "reshape(-1,1)", "dot-self", "average", "where",
+                               "concat-known-first", "concat-known-last", "append-known", "hstack-known", "searchsorted-unknown-a",
+                               "numpy-mask-one-too-long", "int-index-2d"):
                         yield {"n": n, "chunks": ch, "op": op}
 
 
